@@ -172,6 +172,14 @@ func vReadmeOps() []vOp {
 			return map[string]interface{}{"k": verifInt("var_k", 0, 9)}
 		}},
 		{q: `mutation { saveBoth(name: "x") { query { phoneCount getAnimals { name } } } }`},
+		// response keys that look like the helpers the gateway uses itself
+		{q: `{ me { node: best { name phone } } }`},
+		{q: `{ me { x: name name phone } }`},
+		{q: `{ me { ...F } getHumans { ...F } } fragment F on Human { name phone }`},
+		{q: `{ me { x: id phone } }`},
+		{q: `{ me { id: name phone } }`, known: "response-key-id-taken"},
+		{q: `{ me { t: __typename phone } }`},
+		{q: `{ getHumans { ...F friends { ...F } } } fragment F on Human { phone name }`},
 	}
 }
 
